@@ -128,13 +128,24 @@ def build_unit(unit, repo, workdir):
     dropped = []
     provs = []
     text = unit.template
+    fn_texts = {}
     for fn in unit.functions:
         t, p = extract_fn(repo, fn, cache, dropped)
         provs.append(p)
+        fn_texts[fn.name] = t
+    if getattr(unit, 'gen', None):
+        # mechanical second pass over the extracted texts (e.g. call sites -> ghost reads, DESIGN R6/R7);
+        # returns {placeholder name: generated text}; may rewrite fn_texts in place; raises ExtractionBreak
+        for k, v in unit.gen(fn_texts).items():
+            key = '@@GEN %s@@' % k
+            if key not in text:
+                raise X.ExtractionBreak('template of %s lacks %s' % (unit.name, key))
+            text = text.replace(key, v)
+    for fn in unit.functions:
         key = '@@FN %s@@' % fn.name
         if key not in text:
             raise X.ExtractionBreak('template of %s lacks %s' % (unit.name, key))
-        text = text.replace(key, t)
+        text = text.replace(key, fn_texts[fn.name])
     for blk in unit.blocks:
         t, p = extract_block(repo, blk, cache, dropped)
         provs.append(p)
